@@ -16,6 +16,7 @@ import (
 	"verif/sim/core"
 	"verif/sim/rig"
 	"verif/sim/simnet"
+	"verif/sim/simstream"
 	"verif/sim/tape"
 )
 
@@ -23,6 +24,7 @@ import (
 type gCfg struct {
 	host, srflxStun, srflxMapped, relay bool
 	udpMux, udpMuxSrflx                 bool
+	tcpMux                              bool
 	nIPs                                int
 	ifaceFilter                         bool
 	stunTimeout                         time.Duration
@@ -31,8 +33,8 @@ type gCfg struct {
 }
 
 func (g gCfg) String() string {
-	return fmt.Sprintf("host=%v srflx=%v mapped=%v relay=%v udpMux=%v muxSrflx=%v ips=%d filter=%v stunTO=%v urls2=%v",
-		g.host, g.srflxStun, g.srflxMapped, g.relay, g.udpMux, g.udpMuxSrflx, g.nIPs, g.ifaceFilter, g.stunTimeout, g.twoStunURLs)
+	return fmt.Sprintf("host=%v srflx=%v mapped=%v relay=%v udpMux=%v muxSrflx=%v tcpMux=%v ips=%d filter=%v stunTO=%v urls2=%v",
+		g.host, g.srflxStun, g.srflxMapped, g.relay, g.udpMux, g.udpMuxSrflx, g.tcpMux, g.nIPs, g.ifaceFilter, g.stunTimeout, g.twoStunURLs)
 }
 
 func drawGCfg(t *tape.Tape) gCfg {
@@ -48,6 +50,7 @@ func drawGCfg(t *tape.Tape) gCfg {
 	g.stunTimeout = []time.Duration{500 * time.Millisecond, 2 * time.Second}[t.Choose(2, "stunto")]
 	g.twoStunURLs = g.srflxStun && t.Bias(1, 3, "urls2")
 	g.parkAllocate = t.Bias(1, 2, "parkalloc")
+	g.tcpMux = g.host && t.Bias(1, 4, "tcpmux")
 	if !g.host && !g.srflxStun && !g.srflxMapped && !g.relay {
 		g.host = true
 	}
@@ -66,6 +69,8 @@ type gRig struct {
 	turn     *rig.TurnStub
 	ag       *rig.AgentH
 	mux      *rig.CountingUDPMux
+	tcpMux   *rig.CountingTCPMux
+	tcpInner *ice.TCPMuxDefault
 	muxSrflx *ice.UniversalUDPMuxDefault
 	ownSocks map[int]bool // harness-owned sockets (mux sockets): not "acquired while gathering"
 	steps    int
@@ -96,8 +101,12 @@ func newGRig(c *core.Ctx, t *tape.Tape, cfg gCfg, extra ...ice.AgentOption) (*gR
 	if cfg.relay {
 		types = append(types, ice.CandidateTypeRelay)
 	}
+	nts := []ice.NetworkType{ice.NetworkTypeUDP4}
+	if cfg.tcpMux {
+		nts = append(nts, ice.NetworkTypeTCP4)
+	}
 	opts := []ice.AgentOption{
-		ice.WithNetworkTypes([]ice.NetworkType{ice.NetworkTypeUDP4}),
+		ice.WithNetworkTypes(nts),
 		ice.WithCandidateTypes(types),
 		ice.WithSTUNGatherTimeout(cfg.stunTimeout),
 		g.turn.Option(),
@@ -152,6 +161,14 @@ func newGRig(c *core.Ctx, t *tape.Tape, cfg gCfg, extra ...ice.AgentOption) (*gR
 		c.Defer(func() { _ = m.Close() })
 		opts = append(opts, ice.WithUDPMuxSrflx(g.muxSrflx))
 	}
+	if cfg.tcpMux {
+		l := simstream.Listen(&net.TCPAddr{IP: net.ParseIP("10.0.1.10"), Port: 7002})
+		g.tcpInner = ice.NewTCPMuxDefault(ice.TCPMuxParams{Listener: l, Logger: rig.Quiet().NewLogger("tcpmux"), ReadBufferSize: 8})
+		g.tcpMux = rig.NewCountingTCPMux(g.tcpInner)
+		m := g.tcpInner
+		c.Defer(func() { _ = m.Close() })
+		opts = append(opts, ice.WithTCPMux(g.tcpMux), ice.WithDisableActiveTCP())
+	}
 	ice.VerifSeedGlobalRand(1)
 	ag, err := rig.NewAgent("A", g.H, time.Now(), append(opts, extra...)...)
 	if err != nil {
@@ -202,6 +219,9 @@ func (g *gRig) finish() {
 	}
 	if g.muxSrflx != nil {
 		_ = g.muxSrflx.Close()
+	}
+	if g.tcpInner != nil {
+		_ = g.tcpInner.Close()
 	}
 }
 
